@@ -754,6 +754,28 @@ def main():
             for _ in range(max(1, int(per * wgt))): groups.append(gen_group(ck.rng, kind, big))
     res = rn.run(groups)
     nmon = ndis = 0; reported = {}; first_dis = None; unknown_groups = set(); nknown_hits = 0
+    # object history: every trainer (and the model it writes into) first trains on an unrelated earlier data set (other size and
+    # dimension) and then on the case data; the result must be bit-identical to the one of fresh objects
+    io_fresh = rn.impl(groups, "fresh")
+    io_reuse = run_cases(exe, [[l for l, _ in G] for G in groups], os.path.join(tmpd, "reuse_in.txt"),
+                         env={"OMP_NUM_THREADS": "1", "OPENBLAS_NUM_THREADS": "1"}, args=("reuse",))
+    nreuse = 0; reuse_bad = {}
+    for gi, G in enumerate(groups):
+        (a, rca, _), (b, rcb, eb) = io_fresh[gi], io_reuse[gi]
+        for li, (l, _) in enumerate(G):
+            nreuse += 1
+            x = a[li] if li < len(a) else "<crash>"; y = b[li] if li < len(b) else "<crash rc=%s>" % rcb
+            if x != y:
+                kind = l.split()[0]; key = "%s:object-reuse" % kind
+                if key not in reuse_bad:
+                    reuse_bad[key] = True
+                    cf = ck.write_replay("reuse_%s.txt" % kind, l + "\n")
+                    fx, fy = x.split(), y.split()
+                    d = next((u + "  vs  " + v for u, v in zip(fx, fy) if u != v), "")[:300]
+                    ck.violation(key, {"case_file": cf, "case": [l], "fresh_objects": x[:2000], "reused_objects": y[:2000],
+                                       "replay_cmd": "build/bin/std/c15_trainers reuse " + cf},
+                                 "trainer %s: training with a trainer/model object that was trained before on other data gives a different result than fresh objects: %s" % (kind, d))
+    ck.oblige("object history does not matter: %d cases trained with reused trainer/model objects equal the fresh results" % nreuse, not reuse_bad, ", ".join(reuse_bad))
     for gi, (cs, os_, mon, dis) in enumerate(res):
         if mon:
             nmon += 1
